@@ -26,17 +26,26 @@ Theorem C01_record : forall e, le_ok e -> marshal_into (writable_size e) e = mar
 Proof. intros e H. split; [exact (marshal_into_ok e H)|exact (writable_size_ok e H)]. Qed.
 Print Assumptions C01_record.
 
-(* LogEvent codec incl. the reused struct: Unmarshal gives the event back, except that Fields keeps the
-   previous value of the struct when the record carries none (header bit 0 clear) *)
-Theorem C01_codec : forall prev e, le_ok e ->
-  unmarshal_le prev (marshal_le e) = Ok (after_unmarshal prev e) /\
-  (le_flds prev = [] -> unmarshal_le prev (marshal_le e) = Ok e).
-Proof. intros prev e H. split; [exact (le_codec prev e H)|exact (le_codec_fresh prev e H)]. Qed.
+(* LogEvent codec: Unmarshal gives the event back whatever the reused struct [prev] held before (Fields is reset
+   when the record carries none) *)
+Theorem C01_codec : forall prev e, le_ok e -> unmarshal_le prev (marshal_le e) = Ok e.
+Proof. exact le_codec. Qed.
 Print Assumptions C01_codec.
+
+(* the variant before the repair (Fields left alone when header bit 0 is clear) did not have this property: a
+   struct that held fields delivered them with a record that has none *)
+Theorem C01_codec_kept_fields_refuted : ~ (forall prev e, le_ok e -> unmarshal_le_v false prev (marshal_le e) = Ok e).
+Proof.
+  intros H.
+  specialize (H {| le_ts := 0; le_msg := []; le_flds := [x01; x6b; x01; x76] |} {| le_ts := 5; le_msg := [x6d]; le_flds := [] |}).
+  assert (Hok : le_ok {| le_ts := 5; le_msg := [x6d]; le_flds := [] |}) by (unfold le_ok, in_i64, len_ok; cbn; repeat split; lia).
+  specialize (H Hok). vm_compute in H. discriminate.
+Qed.
+Print Assumptions C01_codec_kept_fields_refuted.
 
 (* the read side releases the struct between events: a sequence of records decodes to the sequence of events *)
 Theorem C01_codec_iter : forall es, Forall le_ok es -> lei_read le_zero (map marshal_le es) = Ok es.
-Proof. intros es H. exact (lei_read_ok es le_zero eq_refl H). Qed.
+Proof. intros es H. exact (lei_read_ok es le_zero H). Qed.
 Print Assumptions C01_codec_iter.
 
 (* rpc: one event, the event list of a query result, the write packet and its server-side iterator *)
@@ -59,70 +68,92 @@ Print Assumptions C01_wire_packet.
 
 (* ---- the write path ---- *)
 
-(* one Journal.Write call, any iterator obeying the Get/Next protocol, any chunk size > 0, any alignment of the
-   pending records with the chunk boundary: a non-empty prefix of the pending records is appended (nothing
-   only if nothing is pending), nothing else changes, the call does not fail *)
-Theorem C01_journal_write : forall (St : Type) get next (Rep : St -> list bytes -> Prop), iter_laws get next Rep ->
-  forall fuel cfg j s l, (0 < max_chunk cfg)%Z -> Rep s l -> (length l < fuel)%nat ->
-  exists k j' s' pos, journal_write St get next fuel cfg j s = Ok (j', s', k, pos, WNil) /\
-    flat j' = flat j ++ firstn k l /\ Rep s' (skipn k l) /\ (k <= length l)%nat /\ (l <> [] -> (1 <= k)%nat).
+(* one Journal.Write call, any iterator obeying the Get/Next protocol ([Rep s l fl]: l is pending in state s, after
+   l the iterator reports io.EOF (fl = false) or another error (fl = true)), any chunk size > 0, any alignment of the
+   pending records with the chunk boundary: a non-empty prefix of the pending records is appended and the call
+   succeeds; when nothing is pending nothing changes and the call reports nil after io.EOF and the iterator's error
+   otherwise *)
+Theorem C01_journal_write : forall (St : Type) get next (Rep : St -> list bytes -> bool -> Prop), iter_laws get next Rep ->
+  forall fuel cfg j s l fl, (0 < max_chunk cfg)%Z -> Rep s l fl -> (length l < fuel)%nat ->
+  exists k j' s' pos e, journal_write St get next fuel cfg j s = Ok (j', s', k, pos, e) /\
+    flat j' = flat j ++ firstn k l /\ Rep s' (skipn k l) fl /\ (k <= length l)%nat /\
+    (l <> [] -> (1 <= k)%nat /\ e = WNil) /\ (l = [] -> e = end_err fl).
 Proof. exact journal_write_spec. Qed.
 Print Assumptions C01_journal_write.
 
-(* refinement: for every chunk-size configuration and every history of write requests (RPC or direct, any batch
-   sizes, any tags spelling), every request the specification accepts is acknowledged, and reading any partition
-   back returns the concatenation of its acknowledged batches: same timestamps, same message bytes, write-level
+(* refinement: for every configuration (chunk size > 0; the write path's record limit positive and not above the
+   readers' MaxRecordSize, as in a linked server where both are the same number) and every history of write requests
+   (RPC or direct, any batch sizes, any tags spelling, events of any size), a request is acknowledged exactly when
+   the specification accepts it (tags and fields accepted, no record above the limit), and reading any partition back
+   succeeds and returns the concatenation of the stored batches - every acknowledged batch whole; of a batch rejected
+   for an oversize event its events before that one - with the same timestamps, the same message bytes, write-level
    fields followed by the event's own fields, the partition's tag line, in write order, each event once.
-   Hypotheses: the parameter functions return Ok or Err; sizes are Go-representable; every stored record is within
-   MaxRecordSize (without this the statement is false: C01_reject_refuted). *)
+   Hypotheses: the parameter functions return Ok or Err; sizes are Go-representable. *)
 Theorem C01_readback : forall fparse norm as_kv, total fparse -> total norm ->
-  forall cfg rs fuel key, (0 < max_chunk cfg)%Z -> Forall req_ok rs -> Forall (fun r => (req_len r < fuel)%nat) rs ->
-  Forall le_ok (concat (map (spec_req fparse norm key) rs)) ->
-  Forall (fun e => (Z.of_nat (length (marshal_le e)) <= max_rec cfg)%Z) (concat (map (spec_req fparse norm key) rs)) ->
+  forall cfg rs fuel key, (0 < max_chunk cfg)%Z -> (0 < w_limit cfg <= max_rec cfg)%Z ->
+  Forall req_ok rs -> Forall (fun r => (req_len r < fuel)%nat) rs ->
+  Forall le_ok (concat (map (spec_req fparse norm cfg key) rs)) ->
   exists srv res, run fparse norm fuel cfg [] rs = Ok (srv, res) /\
-    map r_ack res = map (spec_ack fparse norm) rs /\
-    read_back as_kv cfg srv key = Ok (spec_content fparse norm as_kv key rs).
+    map r_ack res = map (spec_ack fparse norm cfg) rs /\
+    read_back as_kv cfg srv key = Ok (spec_content fparse norm as_kv cfg key rs).
 Proof. exact readback. Qed.
 Print Assumptions C01_readback.
 
-(* the invariant behind it, without the size hypothesis: flattened journal = concatenation of acknowledged batches *)
+(* an acknowledged batch is stored whole *)
+Theorem C01_acknowledged_whole : forall fparse norm cfg key r k evs,
+  spec_batch fparse norm r = Some (k, evs) -> spec_ack fparse norm cfg r = true ->
+  spec_req fparse norm cfg key r = if bytes_eqb k key then evs else [].
+Proof.
+  intros fparse norm cfg key r k evs Hb Ha. unfold spec_ack, spec_req in *. rewrite Hb in *.
+  destruct (bytes_eqb k key); [|reflexivity]. apply fit_prefix_all. apply negb_true_iff. exact Ha.
+Qed.
+Print Assumptions C01_acknowledged_whole.
+
+(* the invariant behind it, whatever the limits are: flattened journal = concatenation of the stored batches *)
 Theorem C01_journal_content : forall fparse norm, total fparse -> total norm ->
   forall cfg rs fuel, (0 < max_chunk cfg)%Z -> Forall req_ok rs -> Forall (fun r => (req_len r < fuel)%nat) rs ->
-  exists srv res, run fparse norm fuel cfg [] rs = Ok (srv, res) /\ map r_ack res = map (spec_ack fparse norm) rs /\
-    forall key, content srv key = map iw_rec (concat (map (spec_req fparse norm key) rs)).
+  exists srv res, run fparse norm fuel cfg [] rs = Ok (srv, res) /\ map r_ack res = map (spec_ack fparse norm cfg) rs /\
+    forall key, content srv key = map iw_rec (concat (map (spec_req fparse norm cfg key) rs)).
 Proof. exact run_total. Qed.
 Print Assumptions C01_journal_content.
 
-(* the WriteEvent of a Service.Write (any iterator obeying the protocol, any chunk size, journal with increasing
-   chunk ids, fewer than 2^32 records): for a non-empty batch StartPos is the position of the first record of the
-   batch (offset = number of records the partition had) and EndPos the position after its last record (offset = new
-   number of records), also when the batch spans chunk roll-overs; an empty batch emits no event.
+(* the WriteEvent of a Service.Write (around any model.Iterator obeying the protocol, any chunk size, journal with
+   increasing chunk ids, fewer than 2^32 records): the records of the batch's events before the first oversize one are
+   appended (all of them when there is none); the call fails exactly when there is an oversize event or the iterator
+   fails; when anything was appended StartPos is the position of the first appended record (offset = number of
+   records the partition had) and EndPos the position after the last one (offset = new number of records), also when
+   the batch spans chunk roll-overs; when nothing was appended no event is emitted.
    [pos_offset j p] = number of records of j before position p = (chunk id, index). *)
-Theorem C01_positions : forall (T : Type) get next (RepL : T -> list levent -> Prop), iter_laws get next RepL ->
-  forall fuel cfg j s evs, (0 < max_chunk cfg)%Z -> RepL s evs -> (length evs < fuel)%nat -> ids_ok j ->
+Theorem C01_positions : forall (T : Type) get next (RepL : T -> list levent -> bool -> Prop), iter_laws get next RepL ->
+  forall fuel cfg j s evs flL, (0 < max_chunk cfg)%Z -> RepL s evs flL -> (length evs < fuel)%nat -> ids_ok j ->
   (N.of_nat (length (flat j) + length evs) < 4294967296)%N ->
-  exists j' s' we, sw_loop T get next fuel fuel cfg j s None = Ok (j', s', we, false) /\
-    flat j' = flat j ++ map iw_rec evs /\ ids_ok j' /\
+  exists j' s' we, sw_loop T (iw_get T get (w_limit cfg)) (iw_next T next) fuel fuel cfg j s None =
+                   Ok (j', s', we, has_big (w_limit cfg) evs || flL) /\
+    flat j' = flat j ++ map iw_rec (fit_prefix (w_limit cfg) evs) /\ ids_ok j' /\
     match we with
-    | None => evs = []
-    | Some (st, en) => evs <> [] /\ pos_offset j' st = length (flat j) /\ pos_offset j' en = length (flat j')
+    | None => fit_prefix (w_limit cfg) evs = []
+    | Some (st, en) => fit_prefix (w_limit cfg) evs <> [] /\ pos_offset j' st = length (flat j) /\ pos_offset j' en = length (flat j')
     end.
 Proof. exact write_positions. Qed.
 Print Assumptions C01_positions.
 
-(* K writers on one partition, atomic step = one Journal.Write call, ANY schedule: the journal grows by a log in
-   which every record belongs to exactly one writer; what a writer has written is a prefix of its batch and a
-   subsequence of the journal (own order kept); no writer fails; a writer that took max(|batch|,1) steps has its
-   whole batch in the journal, exactly once *)
+(* K writers on one partition, atomic step = one Journal.Write call, ANY schedule, events of any size: the journal
+   grows by a log in which every record belongs to exactly one writer; what a writer has written is a prefix of the
+   accepted part of its batch (its events before the first oversize one; the whole batch when there is none) and a
+   subsequence of the journal (own order kept); a writer fails only on an oversize event of its own batch; a writer
+   that took max(|accepted part|,1) steps has its whole accepted part in the journal, exactly once, and has failed
+   exactly when its batch holds an oversize event *)
 Theorem C01_interleave : forall fuel cfg j0 batches sched, (0 < max_chunk cfg)%Z -> (forall b, In b batches -> (length b < fuel)%nat) ->
   exists st, crun fuel cfg (cinit j0 batches) sched = Ok st /\
     flat (cs_j st) = flat j0 ++ map snd (cs_log st) /\
     (forall p, In p (cs_log st) -> (fst p < length batches)%nat) /\
     forall w b, nth_error batches w = Some b ->
-      (exists rest, map iw_rec b = written_by w (cs_log st) ++ rest) /\
+      (exists rest, map iw_rec (fit_prefix (w_limit cfg) b) = written_by w (cs_log st) ++ rest) /\
       subseq (written_by w (cs_log st)) (flat (cs_j st)) /\
-      (forall wr, nth_error (cs_ws st) w = Some wr -> wr_failed wr = false) /\
-      ((Nat.max (length b) 1 <= count_occ Nat.eq_dec sched w)%nat -> written_by w (cs_log st) = map iw_rec b).
+      (forall wr, nth_error (cs_ws st) w = Some wr -> wr_failed wr = true -> has_big (w_limit cfg) b = true) /\
+      ((Nat.max (length (fit_prefix (w_limit cfg) b)) 1 <= count_occ Nat.eq_dec sched w)%nat ->
+         written_by w (cs_log st) = map iw_rec (fit_prefix (w_limit cfg) b) /\
+         forall wr, nth_error (cs_ws st) w = Some wr -> wr_failed wr = has_big (w_limit cfg) b).
 Proof. exact interleave. Qed.
 Print Assumptions C01_interleave.
 
@@ -134,26 +165,39 @@ Proof. exact reader_prefix. Qed.
 Print Assumptions C01_reader_prefix.
 
 (* ---- "a write the server cannot serve back must be rejected, not acknowledged" ---- *)
-Definition C01_reject_statement : Prop :=
+(* after every history every partition can be read, for the configurations [P] *)
+Definition C01_reject_statement (P : jcfg -> Prop) : Prop :=
   forall fparse norm as_kv, total fparse -> total norm ->
-  forall cfg rs fuel key srv res, (0 < max_chunk cfg)%Z -> Forall req_ok rs -> Forall (fun r => (req_len r < fuel)%nat) rs ->
-  Forall le_ok (concat (map (spec_req fparse norm key) rs)) ->
+  forall cfg rs fuel key srv res, P cfg -> (0 < max_chunk cfg)%Z -> Forall req_ok rs -> Forall (fun r => (req_len r < fuel)%nat) rs ->
+  Forall le_ok (concat (map (spec_req fparse norm cfg key) rs)) ->
   run fparse norm fuel cfg [] rs = Ok (srv, res) ->
   exists evs, read_back as_kv cfg srv key = Ok evs.
+
+(* the code: the write path applies a positive limit that is not above the readers' MaxRecordSize (a linked server:
+   Service.maxRecordSize() is the effective MaxRecordSize of the journal controller's configuration) *)
+Theorem C01_reject : C01_reject_statement (fun cfg => (0 < w_limit cfg <= max_rec cfg)%Z).
+Proof.
+  intros fparse norm as_kv Hf Hn cfg rs fuel key srv res Hlim Hmax Hok Hfu Hle Hrun.
+  destruct (readback fparse norm as_kv Hf Hn cfg rs fuel key Hmax Hlim Hok Hfu Hle) as (srv' & res' & Hrun' & _ & Hrb).
+  rewrite Hrun in Hrun'. injection Hrun' as <- <-. eexists. exact Hrb.
+Qed.
+Print Assumptions C01_reject.
 
 Definition big_msg : bytes := repeat x78 30.
 Definition reject_witness : list req :=
   [RpcW {| w_tags := [x61]; w_flds := []; w_evs := [{| ae_ts := 1; ae_msg := big_msg; ae_tags := []; ae_flds := [] |}] |}].
 
-(* the faithful model violates it: a 30-byte message with MaxRecordSize = 20 is acknowledged, then the read fails *)
-Theorem C01_reject_refuted : ~ C01_reject_statement.
+(* without the limit on the write path (w_limit = 0: a Service built without the configuration; before the repair
+   every Service) the statement is false: a 30-byte message with MaxRecordSize = 20 is acknowledged, then the read fails *)
+Theorem C01_reject_unlimited_refuted : ~ C01_reject_statement (fun cfg => w_limit cfg = 0%Z).
 Proof.
   intros H.
   assert (T : total (fun _ : bytes => Ok [])) by (intros b; right; exists []; reflexivity).
   assert (T' : total (fun t : bytes => Ok t)) by (intros b; right; exists b; reflexivity).
   specialize (H (fun _ => Ok []) (fun t => Ok t) (fun b => b) T T'
-                {| max_chunk := 1000; max_rec := 20 |} reject_witness 5%nat [x61]).
+                {| max_chunk := 1000; max_rec := 20; w_limit := 0 |} reject_witness 5%nat [x61]).
   edestruct H as (evs & E).
+  - reflexivity.
   - reflexivity.
   - repeat constructor; unfold len_ok, count_ok, in_i64; cbn; lia.
   - repeat constructor.
@@ -161,27 +205,21 @@ Proof.
   - vm_compute. reflexivity.
   - vm_compute in E. discriminate.
 Qed.
-Print Assumptions C01_reject_refuted.
+Print Assumptions C01_reject_unlimited_refuted.
 
-(* what holds: when every acknowledged record is within MaxRecordSize every partition can be read after every history *)
-Theorem C01_reject_partial : forall fparse norm as_kv, total fparse -> total norm ->
-  forall cfg rs fuel key srv res, (0 < max_chunk cfg)%Z -> Forall req_ok rs -> Forall (fun r => (req_len r < fuel)%nat) rs ->
-  Forall le_ok (concat (map (spec_req fparse norm key) rs)) ->
-  Forall (fun e => (Z.of_nat (length (marshal_le e)) <= max_rec cfg)%Z) (concat (map (spec_req fparse norm key) rs)) ->
-  run fparse norm fuel cfg [] rs = Ok (srv, res) ->
-  exists evs, read_back as_kv cfg srv key = Ok evs.
-Proof.
-  intros fparse norm as_kv Hf Hn cfg rs fuel key srv res Hmax Hok Hfu Hle Hsz Hrun.
-  destruct (readback fparse norm as_kv Hf Hn cfg rs fuel key Hmax Hok Hfu Hle Hsz) as (srv' & res' & Hrun' & _ & Hrb).
-  rewrite Hrun in Hrun'. injection Hrun' as <- <-. eexists. exact Hrb.
-Qed.
-Print Assumptions C01_reject_partial.
+(* the same witness on the code: rejected, nothing stored, the partition stays readable *)
+Example C01_reject_witness_rejected :
+  let cfg := {| max_chunk := 1000; max_rec := 20; w_limit := 20 |} in
+  exists srv, run (fun _ => Ok []) (fun t => Ok t) 5 cfg [] reject_witness = Ok (srv, [{| r_ack := false; r_we := None |}]) /\
+    read_back (fun b => b) cfg srv [x61] = Ok [].
+Proof. eexists. split; [vm_compute; reflexivity|vm_compute; reflexivity]. Qed.
 
-(* a raw request body: an acknowledged packet stores as many events as it declares *)
-Definition C01_reject_truncated_statement : Prop :=
+(* a raw request body: an acknowledged packet stores as many events as it declares.  [eof_on_error] selects the
+   packet iterator (false = the code) *)
+Definition C01_reject_truncated_statement (eof_on_error : bool) : Prop :=
   forall fparse norm, total fparse -> total norm ->
   forall cfg fuel body srv res tags it key, (0 < max_chunk cfg)%Z ->
-  ingest fparse norm fuel cfg [] body = Ok (srv, res) -> r_ack res = true ->
+  ingest_v fparse norm eof_on_error fuel cfg [] body = Ok (srv, res) -> r_ack res = true ->
   wp_init fparse body = Ok (tags, it) -> norm tags = Ok key ->
   N.of_nat (length (content srv key)) = wp_recs it.
 
@@ -189,21 +227,45 @@ Definition truncated_witness : bytes :=
   marshal_bytes [x61] ++ marshal_bytes [] ++ marshal_u32 2 ++
   write_api_event {| ae_ts := 7; ae_msg := [x6f; x6e; x6c; x79]; ae_tags := []; ae_flds := [] |}.
 
-(* refuted: the count says 2, one event is carried; wpIterator.Get turns the decode error into EOF, the write is
-   acknowledged with one event stored *)
-Theorem C01_reject_truncated_refuted : ~ C01_reject_truncated_statement.
+(* the code: for EVERY request body (truncated, counts raised or lowered, garbage), every limit and chunk size: if
+   the ingestor acknowledges it, the partition holds exactly as many events as the packet declares *)
+Theorem C01_reject_truncated : C01_reject_truncated_statement false.
+Proof.
+  intros fparse norm _ _ cfg fuel body srv res tags it key _ H Hack Hinit Hn.
+  exact (truncated_rejected fparse norm cfg fuel body srv res tags it key H Hack Hinit Hn).
+Qed.
+Print Assumptions C01_reject_truncated.
+
+(* the iterator before the repair refutes it: the count says 2, one event is carried; wpIterator.Get turned the decode
+   error into EOF, the write was acknowledged with one event stored *)
+Theorem C01_reject_truncated_eof_refuted : ~ C01_reject_truncated_statement true.
 Proof.
   intros H.
   assert (T : total (fun _ : bytes => Ok [])) by (intros b; right; exists []; reflexivity).
   assert (T' : total (fun t : bytes => Ok t)) by (intros b; right; exists b; reflexivity).
-  specialize (H (fun _ => Ok []) (fun t => Ok t) T T' {| max_chunk := 1000; max_rec := 1000 |} 100%nat truncated_witness).
+  specialize (H (fun _ => Ok []) (fun t => Ok t) T T' {| max_chunk := 1000; max_rec := 1000; w_limit := 1000 |} 100%nat truncated_witness).
   evar (srv : server). evar (res : wres). evar (it : wpit).
   specialize (H srv res [x61] it [x61] eq_refl).
   assert (E : N.of_nat (length (content srv [x61])) = wp_recs it).
   { apply H; subst srv res it; vm_compute; reflexivity. }
   subst srv it. vm_compute in E. discriminate.
 Qed.
-Print Assumptions C01_reject_truncated_refuted.
+Print Assumptions C01_reject_truncated_eof_refuted.
+
+(* its hypotheses are satisfiable: a complete packet (count 1, one event) is acknowledged and stored *)
+Example C01_reject_truncated_nonvacuous :
+  let body := marshal_bytes [x61] ++ marshal_bytes [] ++ marshal_u32 1 ++
+              write_api_event {| ae_ts := 7; ae_msg := [x6f; x6e; x6c; x79]; ae_tags := []; ae_flds := [] |} in
+  exists srv we it, ingest (fun _ => Ok []) (fun t => Ok t) 100 {| max_chunk := 1000; max_rec := 1000; w_limit := 1000 |} [] body =
+                 Ok (srv, {| r_ack := true; r_we := we |}) /\
+    wp_init (fun _ => Ok []) body = Ok ([x61], it) /\ wp_recs it = 1%N /\ length (content srv [x61]) = 1%nat.
+Proof. eexists _, _, _. split; [vm_compute; reflexivity|]. split; [vm_compute; reflexivity|]. split; vm_compute; reflexivity. Qed.
+
+(* the same witness on the code: rejected (the event the packet does carry is stored, unacknowledged) *)
+Example C01_truncated_witness_rejected :
+  exists srv we, ingest (fun _ => Ok []) (fun t => Ok t) 100 {| max_chunk := 1000; max_rec := 1000; w_limit := 1000 |} [] truncated_witness =
+                 Ok (srv, {| r_ack := false; r_we := we |}) /\ length (content srv [x61]) = 1%nat.
+Proof. eexists _, _. split; [vm_compute; reflexivity|vm_compute; reflexivity]. Qed.
 
 (* non-vacuity of the hypotheses *)
 Example C01_ok_event : le_ok {| le_ts := (-9223372036854775808)%Z; le_msg := [x00; xff; x80]; le_flds := [x01; x61; x01; x62] |}.
@@ -219,9 +281,9 @@ Definition ex_reqs : list req :=
                      {| ae_ts := 3; ae_msg := repeat x00 25; ae_tags := []; ae_flds := [] |}] |};
    DirW [x61] [{| le_ts := 4; le_msg := [xff]; le_flds := [] |}]].
 Example C01_readback_nonvacuous :
-  exists srv res, run ex_fparse (fun t => Ok t) 10 {| max_chunk := 40; max_rec := 100 |} [] ex_reqs = Ok (srv, res) /\
+  exists srv res, run ex_fparse (fun t => Ok t) 10 {| max_chunk := 40; max_rec := 100; w_limit := 100 |} [] ex_reqs = Ok (srv, res) /\
     length (srv_get srv [x61]) = 3%nat /\ map r_ack res = [true; true] /\
-    exists l, read_back (fun b => b) {| max_chunk := 40; max_rec := 100 |} srv [x61] = Ok l /\ length l = 4%nat.
+    exists l, read_back (fun b => b) {| max_chunk := 40; max_rec := 100; w_limit := 100 |} srv [x61] = Ok l /\ length l = 4%nat.
 Proof. eexists _, _. split; [vm_compute; reflexivity|]. vm_compute. repeat split. eexists. split; reflexivity. Qed.
 
 (* C01_positions is not vacuous: a batch of four events on a journal that already holds one record in a full chunk;
@@ -231,7 +293,7 @@ Example C01_positions_nonvacuous :
   let evs := [{| le_ts := 1; le_msg := repeat x6d 20; le_flds := [] |}; {| le_ts := 2; le_msg := repeat x6d 20; le_flds := [] |};
               {| le_ts := 3; le_msg := []; le_flds := [] |}; {| le_ts := 4; le_msg := [x00]; le_flds := [] |}] in
   ids_ok j0 /\
-  exists j' s', sw_loop (list levent) ls_get ls_next 10 10 {| max_chunk := 50; max_rec := 100 |} j0 evs None =
+  exists j' s', sw_loop (list levent) (iw_get (list levent) ls_get 100) (iw_next (list levent) ls_next) 10 10 {| max_chunk := 50; max_rec := 100; w_limit := 100 |} j0 evs None =
                 Ok (j', s', Some ((2%N, 0%N), (3%N, 2%N)), false) /\
                 pos_offset j' (2%N, 0%N) = 1%nat /\ pos_offset j' (3%N, 2%N) = 5%nat /\ length j' = 3%nat.
 Proof. cbv zeta. split; [cbn; lia|]. eexists _, _. split; [vm_compute; reflexivity|]. vm_compute. repeat split. Qed.
